@@ -162,6 +162,12 @@ def queue_content(schedule):
     return out
 
 
+def counter_value(q):
+    """number of puts this queue object has seen (next value of its itertools.count, read from the repr)"""
+    r = repr(q.counter)
+    return int(r[r.index("(") + 1:r.index(")")])
+
+
 def queue_pop_order_check(schedule):
     """pop order of a *copy* equals the sorted heap list (the model's canonical form)"""
     q2 = PriorityQueueWithFIFO()
@@ -267,12 +273,14 @@ def run_routine(case, forced=None):
         try:
             qflag = [pl._queued for pl in sched._survey_plans]
             qlen = sched._survey_queue.qsize()
+            puts0 = counter_value(sched._survey_queue)
             wp = sched.get_workplan(cur)
+            rec["n_puts"] = counter_value(sched._survey_queue) - puts0
             rec["issued"] = [int(pl.get_site().get_id()) for pl, was in zip(sched._survey_plans, qflag)
                              if pl._queued and not was]
             rec["plan"] = [int(x) for x in wp.site_survey_planners.keys()]
             # number of entries popped = queue before + issued - queue after
-            rec["n_taken"] = qlen + len(rec["issued"]) - sched._survey_queue.qsize()
+            rec["n_taken"] = qlen + rec["n_puts"] - sched._survey_queue.qsize()
             rec["queue_after_take"] = queue_content(sched)
             before = {sid: report_state(pl._active_survey_report) for sid, pl in wp.site_survey_planners.items()}
             if forced is not None:
@@ -306,6 +314,10 @@ def run_routine(case, forced=None):
             sched.update(wp, cur, False)
         except KeyError:
             rec["crash"] = "key_error"
+            trace.append(rec)
+            break
+        except Exception as e:  # any other exception of the code under test ends the simulation too
+            rec["crash"] = type(e).__name__
             trace.append(rec)
             break
         rec["queue"] = queue_content(sched)
